@@ -49,7 +49,7 @@ func (c *Ctx) replay(prop string, o *Obl, passedBefore bool) (string, bool) {
 	rf := &ReplayFile{Property: prop, Obligation: o.ID, Engine: o.Engine, Kind: o.Kind, Func: o.Func, Pos: o.Pos, Clause: o.Text, Status: o.Status,
 		SolverOutput: o.Reason, Model: o.Model, Diff: o.Diff, PassedBefore: passedBefore}
 	confirmed := false
-	if o.Status == "failed" && len(o.Model) > 0 {
+	if o.Status == "failed" {
 		if r, ok := replayers[o.Func]; ok {
 			run := r(c, prop, o)
 			if run != nil {
